@@ -35,6 +35,8 @@ def run(ctx):
     dl = []; meta = []
     for n in ns:
         key = [rng.randrange(2) for _ in range(n)]
+        key[-1] = 1                      # the last and the first term of <a,s> always count (a loop tail that is dropped shows only with the key bit set)
+        if n >= 3: key[0] = 1
         for M in (Ms if n in (8, 630) or thorough else rng.sample(Ms, 4)):
             mus = list(range(M)) if M <= 8 else sorted({0, 1, M - 1, M // 2, rng.randrange(M), rng.randrange(M)})
             a_units = min(2**40 // (20 * M), 2**35)          # Msize*alpha = 1/20
